@@ -255,3 +255,15 @@ def typed_sites(rep, res, entry, rule="R-QTY"):
         rep.holds(rule, f"{ev.d['op']} homogeneous", where=ev.loc, construct=ev.text()[:90], entry=entry, config=res.config,
                   msg=f"both operands in [{ustr(ev.d['unit'])}]")
     return len(seen)
+
+
+def raises(res, top_only=True, also_no=lambda res: False):
+    """three-valued: does the entry raise for this configuration?  True: it raises on every explored path (no return of the
+    entry); False: nothing raises; None: some paths raise and some return (the analyser could not decide the guard)."""
+    rs = [e for e in res.events("raise")]
+    rets = [r for r in res.events("return") if len(r.path) == 1]
+    if rs and not rets:
+        return True
+    if not rs:
+        return False
+    return None
